@@ -939,7 +939,7 @@ func (g *schemaGenerator) generateAllOfType(allOf []*schemas.Type, scope nameSco
 }
 
 func (g *schemaGenerator) defaultPropertyValue(prop *schemas.Type) any {
-	if prop.AdditionalProperties != nil {
+	if prop.AdditionalProperties != nil && len(prop.Properties) == 0 {
 		if len(prop.AdditionalProperties.Type) == 0 {
 			return prop.Default
 		}
